@@ -472,7 +472,7 @@ def pushDefaultK : B → Nat → R B
       -- `serialize_variant` converts the index to `i8`
       let j := firstReal fs
       let cj := cur.getD j 0
-      -- repo fix fe68100: `serialize_variant` checks `current_offset[j] + 1` (i32) before the `i8` conversion and
+      -- repo fix 217d612: `serialize_variant` checks `current_offset[j] + 1` (i32) before the `i8` conversion and
       -- before the child's `serialize_default`: the first of the `k` rows
       if k ≠ 0 ∧ cj + 1 > 2147483647 then
         fail s!"Invalid union offsets: the offset type cannot represent the number of elements of variant {j}"
